@@ -1239,6 +1239,37 @@ pub fn c19_cases(tier: Tier) -> Vec<C19Case> {
             }
         }
     }
+    // VALUE positions x every kind of Rust literal / token that can stand there: whatever kind of token
+    // is written where a number, a path, a string or a flag is expected, the derive has to answer with
+    // a diagnostic (or accept it) - conversions between literal kinds must not panic
+    let values = [
+        "3", "3usize", "3u8", "3i8", "1_000", "0x10", "0b11", "0o7", "0", "007", "2.5", "1e3", "2.", "2.5f32", "1f64", "1e400", "-3", "- 3", "+3", "-2.5",
+        "18446744073709551615", "18446744073709551616", "340282366920938463463374607431768211456", "99999999999999999999999999999999999999999999",
+        "'a'", "b'a'", "'\\n'", "'é'", "\"s\"", "r\"s\"", "r#\"s\"#", "b\"s\"", "br\"s\"", "br#\"s\"#", "c\"s\"", "\"\"", "b\"\"", "r\"\"", "\"é\"", "b\"\\xff\"", "\"\\u{10FFFF}\"",
+        "true", "false", "x", "x::y", "::x", "r#type", "()", "(3)", "[3]", "{3}", "(case)", "'x", "'static", "'_", "_", "!", "&x", "3 3", "3 = 3", "|l| 3", "\"a\" \"b\"",
+        "self", "Self", "crate", "super::x", "fn", "<T>", "x<T>", "Vec<u8>", "&'a str", "*", "..", "3..4", "#", "$x", "x!", "x!()", "3 as usize", "1 + 2", "u8", "usize", "3_", "0x", "1__0",
+    ];
+    let def_pos = ["{v}", "\"a\", {v}", "\"a\", priority = {v}", "\"a\", callback = {v}", "\"a\", ignore({v})", "\"a\", ignore {v}", "\"a\", allow_greedy = {v}", "\"a\", priority({v})", "\"a\", ignore = {v}", "\"a\", priority {v}", "\"a\", {v} = 3", "{v}, priority = 3"];
+    let logos_pos = [
+        "skip {v}", "skip({v})", "skip = {v}", "skip(\"a\", {v})", "skip(\"a\", priority = {v})", "extras = {v}", "extras({v})", "error = {v}", "error({v})", "error(E, {v})", "error(E, callback = {v})", "utf8 = {v}", "utf8({v})", "crate = {v}", "lifetime = {v}",
+        "export_dir = {v}", "source = {v}", "subpattern a = {v}", "subpattern {v} = \"x\"", "subpattern {v}", "type T = {v}", "type {v} = u8", "type {v}", "{v}", "{v} = 3", "{v}(3)", "{v} \"x\"",
+    ];
+    for val in values {
+        for pos in def_pos {
+            let args = pos.replace("{v}", val);
+            for attr in ["token", "regex"] {
+                push("value kind: def argument".into(), format!("enum T {{ #[{attr}({args})] A }}"), None);
+            }
+            push("value kind: skip argument".into(), format!("#[logos(skip({args}))] enum T {{ #[token(\"z\")] Z }}"), None);
+        }
+        for pos in logos_pos {
+            push("value kind: logos item".into(), format!("#[logos({})] enum T {{ #[token(\"z\")] Z }}", pos.replace("{v}", val)), None);
+            push("value kind: logos item (generic enum)".into(), format!("#[logos({})] enum T<'a, T> {{ #[regex(\"z+\", cb)] Z(T), #[token(\"y\")] Y(&'a str) }}", pos.replace("{v}", val)), None);
+        }
+        push("value kind: discriminant".into(), format!("enum T {{ #[token(\"a\")] A = {val} }}"), None);
+        push("value kind: attribute value".into(), format!("enum T {{ #[token = {val}] A }}"), None);
+        push("value kind: attribute value".into(), format!("#[logos = {val}] enum T {{ #[token(\"a\")] A }}"), None);
+    }
     // the TEXT of a pattern inside the diagnostics: every reason that prints a pattern x sources of
     // every byte length in a window x every alignment of 2-, 3- and 4-byte characters (front padding
     // 0..3), plus characters that mean something to format strings, string literals and proc-macro
@@ -1674,7 +1705,7 @@ pub fn probe_emit(a: &Args) {
     use std::fmt::Write as _;
     let dir = a.out.clone();
     let all = c19_cases(a.tier);
-    let keep_desc = ["token args", "regex args", "skip args", "bare attr", "attr = lit", "enum-level bare attr", "regex pattern", "regex pattern allow_greedy", "regex pattern allow_greedy = false", "skip pattern allow_greedy = false", "skip pattern", "subpattern body", "regex byte-string pattern", "skip byte-string pattern", "byte-string subpattern body", "logos item", "variant x generics", "variant x generics (regex cb)", "variant no attr", "empty enum", "no patterns", "only skip", "def args x variant"];
+    let keep_desc = ["token args", "regex args", "skip args", "bare attr", "attr = lit", "enum-level bare attr", "regex pattern", "regex pattern allow_greedy", "regex pattern allow_greedy = false", "skip pattern allow_greedy = false", "skip pattern", "subpattern body", "regex byte-string pattern", "skip byte-string pattern", "byte-string subpattern body", "logos item", "variant x generics", "variant x generics (regex cb)", "variant no attr", "empty enum", "no patterns", "only skip", "def args x variant", "value kind: def argument", "value kind: skip argument", "value kind: logos item", "value kind: discriminant", "value kind: attribute value"];
     let mut cases: Vec<C19Case> = all.iter().filter(|c| keep_desc.contains(&c.desc.as_str())).cloned().collect();
     // same-key pairs (the ones whose handling involves a second span: "previous definition here", Span::join)
     let key = |t: &str| t.split(|c: char| !c.is_alphanumeric() && c != '_').next().unwrap_or("").to_string();
